@@ -247,8 +247,29 @@ class Run:
         return out
 
     # ---- the whole case
+    def known_crashers(self, todo):
+        """A call inside the failure domain of a KNOWN finding that kills or blocks the run (known/C29.json) would take the rest of
+        the program with it at every size: such calls are taken out of the common program.  They are run alone for the smallest and
+        the largest size of the domain only (the finding also has its own replay file)."""
+        groups = {}
+        for p in sorted(todo):
+            for ci in list(todo[p]):
+                self.plan(p, ci)
+                e = known_domain(self.target(ci), self.features(p, ci), FATAL_KINDS)
+                if e is not None:
+                    groups.setdefault((e["signature"], ci), []).append(p)
+                    todo[p].remove(ci)
+            if not todo[p]:
+                del todo[p]
+        for (sig, ci), ps in sorted(groups.items()):
+            for p in sorted(set([min(ps), max(ps)])):
+                self.isolate(p, ci, "quarantined", False, False)
+            if len(ps) > 2:
+                self.oc.labels.append("known-fatal-domain:not-run-at-every-size")
+
     def go(self, batch):
         todo = {p: list(cis) for p, cis in batch.items() if cis}
+        self.known_crashers(todo)
         one_size = False
         rounds = 0
         while todo:
@@ -326,6 +347,13 @@ class Run:
                 if (p, ci) in seen:
                     continue
                 seen.add((p, ci))
+                if kind == "mismatch" and not fail:
+                    # wrong buffers inside the failure domain of a known finding: reported as such, without the isolated run
+                    e = known_domain(self.target(ci), self.features(p, ci), DATA_KINDS)
+                    if e is not None:
+                        self.bad(self.target(ci), [k for k in e["match"].get("kinds", ["wrong-result"]) if k in DATA_KINDS][0], p, ci,
+                                 "CRC of the buffers differ (not re-run alone: inside the domain of the known finding)")
+                        continue
                 if self.isolate(p, ci, kind, unsafe, refused_before.get(p, 1 << 30) < ci) == "retry":
                     done.remove((p, ci))
             for p in list(todo):
@@ -480,6 +508,8 @@ class Run:
 # known findings describe their failure domain, so that a failure of the same algorithm OUTSIDE that domain is still reported:
 #   "match": {"target": "allreduce:rab" (or a list), "kinds": ["wrong-result", ...], "when": {feature: value or [values], "count_ge": n, ...}}
 _KNOWN = None
+FATAL_KINDS = ("crash-memory", "crash-sigfpe", "abort", "deadlock", "nontermination", "partial-refusal-deadlock", "crash-*")
+DATA_KINDS = ("wrong-result", "written-outside-typemap", "unused-recvbuf-written", "send-buffer-modified")
 
 
 def known_entries():
@@ -496,22 +526,40 @@ def known_entries():
     return _KNOWN
 
 
+def _in_domain(e, name, f):
+    m = e["match"]
+    targets = m["target"] if isinstance(m["target"], list) else [m["target"]]
+    if name not in targets:
+        return False
+    for key, want in m.get("when", {}).items():
+        if key.endswith("_ge"):
+            ok = f.get(key[:-3]) is not None and f[key[:-3]] >= want
+        elif key.endswith("_le"):
+            ok = f.get(key[:-3]) is not None and f[key[:-3]] <= want
+        elif key.endswith("_not"):
+            ok = f.get(key[:-4]) not in (want if isinstance(want, list) else [want])
+        else:
+            ok = f.get(key) in want if isinstance(want, list) else f.get(key) == want
+        if not ok:
+            return False
+    return True
+
+
 def known_match(tgt, kind, f):
+    """the known finding that explains a failure of this kind for this (size, call), or None"""
     name = "%s:%s" % tgt
     for e in known_entries():
-        m = e["match"]
-        targets = m["target"] if isinstance(m["target"], list) else [m["target"]]
-        if name not in targets or not any(kind == k or (k.endswith("*") and kind.startswith(k[:-1])) for k in m.get("kinds", ["*"])):
-            continue
-        ok = True
-        for key, want in m.get("when", {}).items():
-            if key.endswith("_ge"):
-                ok = ok and f.get(key[:-3]) is not None and f[key[:-3]] >= want
-            elif key.endswith("_le"):
-                ok = ok and f.get(key[:-3]) is not None and f[key[:-3]] <= want
-            else:
-                ok = ok and (f.get(key) in want if isinstance(want, list) else f.get(key) == want)
-        if ok:
+        kinds = e["match"].get("kinds", ["*"])
+        if any(kind == k or (k.endswith("*") and kind.startswith(k[:-1])) for k in kinds) and _in_domain(e, name, f):
+            return e
+    return None
+
+
+def known_domain(tgt, f, kinds):
+    """the known finding of one of these kinds whose failure domain contains this (size, call), or None"""
+    name = "%s:%s" % tgt
+    for e in known_entries():
+        if any(k in kinds for k in e["match"].get("kinds", [])) and _in_domain(e, name, f):
             return e
     return None
 
